@@ -16,7 +16,7 @@ from ..lib import fl
 
 ID = "C19"
 LEVEL = "model_checking"
-USAGES = ["none", "and", "or", "both"]
+USAGES = ["none", "and", "or", "both", "mixed", "and-disabled", "or-disabled"]
 TARGETS = {1: ["o1"], 2: ["o1", "o2", "o1+o2"]}
 KINDS = ["integral", "weighted"]
 ROWS = [(0.25, 0.5), (0.5, 0.5), (0.0, 1.0)]
@@ -28,6 +28,9 @@ def antecedents(usage: str):
         "and": ["a is t and b is t", "a is t"],
         "or": ["a is t or b is t", "b is t"],
         "both": ["a is t and b is t", "a is t or b is t"],
+        "mixed": ["a is t and b is t or a is t", "b is t"],  # both connectives in ONE antecedent
+        "and-disabled": ["a is t and b is t", "a is t"],     # the connective only occurs in a disabled rule
+        "or-disabled": ["a is t or b is t", "b is t"],
     }[usage]
 
 
@@ -39,7 +42,7 @@ def skeletons(tier: str):
     out = []
     for nb, no in ((1, 1), (1, 2), (2, 1), (2, 2)):
         for usages in itertools.product(USAGES, repeat=nb):
-            if tier == "quick" and (nb, no) == (2, 2) and usages not in (("and", "or"), ("or", "and"), ("both", "none"), ("none", "both")):
+            if tier == "quick" and (nb, no) == (2, 2) and usages not in (("and", "or"), ("or", "and"), ("both", "none"), ("none", "both"), ("mixed", "and-disabled"), ("or-disabled", "mixed")):
                 continue
             for targets in itertools.product(TARGETS[no], repeat=nb):
                 for kinds in itertools.product(KINDS, repeat=no):
@@ -64,6 +67,8 @@ def build(usages, targets, kinds):
     blocks = []
     for k, (usage, target) in enumerate(zip(usages, targets)):
         rules = [fl.Rule.create(f"if {a} then {consequent(target)}") for a in antecedents(usage)]
+        if usage.endswith("-disabled"):
+            rules[0].enabled = False  # a disabled rule is still activated (only its trigger is skipped)
         blocks.append(fl.RuleBlock(f"rb{k + 1}", activation=fl.General(), rules=rules))
     return fl.Engine("e", input_variables=[inp("a"), inp("b")], output_variables=outs, rule_blocks=blocks)
 
@@ -80,9 +85,9 @@ def needed(usages, targets, kinds, removed):
             need.append(("aggregation", o))
     for k, (usage, target) in enumerate(zip(usages, targets)):
         rb = f"rb{k + 1}"
-        if usage in ("and", "both") and (rb, "conjunction") in removed:
+        if usage in ("and", "both", "mixed", "and-disabled") and (rb, "conjunction") in removed:
             need.append(("conjunction", rb))
-        if usage in ("or", "both") and (rb, "disjunction") in removed:
+        if usage in ("or", "both", "mixed", "or-disabled") and (rb, "disjunction") in removed:
             need.append(("disjunction", rb))
         into_integral = any(kinds[int(o[1]) - 1] == "integral" and (o, "defuzzifier") not in removed for o in target.split("+"))
         if into_integral and (rb, "implication") in removed:
@@ -167,7 +172,8 @@ def summarize(tier: str, seed: int, merged: dict) -> dict:
     vac = [f"outcome class {k} is empty" for k in ("ready", "not_ready_raises", "not_ready_but_processes") if not c.get(k)]
     return {
         "rule": (
-            f"{len(skeletons(tier))} skeletons (blocks x outputs in {{1,2}}^2; connective usage per block in {USAGES}; "
+            f"{len(skeletons(tier))} skeletons (blocks x outputs in {{1,2}}^2; connective usage per block in {USAGES} - `mixed` = "
+            "both connectives in one antecedent, `*-disabled` = the connective only occurs in a disabled rule; "
             "conclusion targets o1 / o2 / both; output kind integral / weighted) x every subset of the removable "
             "components (3 per block + 2 per output, up to 2^10); states = engine configurations, transitions = "
             "is_ready + process calls, traces = configurations judged against the reference needs; non-trivial = at "
